@@ -100,10 +100,20 @@ type Program struct {
 	GlobalIOMode string `json:"global_iomode,omitempty"`
 	// SameLabelNames: the code sections of all CPs draw their label names from one sequence
 	SameLabelNames bool `json:"same_label_names,omitempty"`
+	// MoreOps: the arithmetic pool also has the pipelined addp/multp, and a quarter of the two-register
+	// instructions use one register for both operands
+	MoreOps bool `json:"more_ops,omitempty"`
 }
 
 func lit(rng *rand.Rand, v uint64) string {
-	switch rng.IntN(6) {
+	switch rng.IntN(9) {
+	case 6:
+		// a decimal literal with leading zeros is still decimal
+		return "0" + strconv.FormatUint(v, 10)
+	case 7:
+		return "00" + strconv.FormatUint(v, 10)
+	case 8:
+		return "0x" + strings.ToUpper(strconv.FormatUint(v, 16))
 	case 0:
 		return "0x" + strconv.FormatUint(v, 16)
 	case 1:
@@ -239,7 +249,16 @@ func (g *genCtx) arith(n int, avoid string) []Item {
 		for r == avoid {
 			r = g.reg()
 		}
-		switch g.rng.IntN(8) {
+		k := g.rng.IntN(8)
+		if g.p.MoreOps && g.rng.IntN(3) == 0 {
+			src := g.reg()
+			if g.rng.IntN(4) == 0 {
+				src = r
+			}
+			out = append(out, Item{Op: []string{"addp", "multp", "add", "mult"}[g.rng.IntN(4)], Args: []string{r, src}})
+			continue
+		}
+		switch k {
 		case 0:
 			out = append(out, Item{Op: "mov", Args: []string{r, lit(g.rng, g.rng.Uint64()&mask)}})
 		case 1:
@@ -274,8 +293,17 @@ func GenerateShared(rng *rand.Rand, maxLit uint64) *Program {
 	return generate(rng, true, maxLit, true)
 }
 
+// GenerateWide is Generate with the larger arithmetic pool (addp, multp, same-register operands).
+func GenerateWide(rng *rand.Rand, sync bool, maxLit uint64) *Program {
+	moreOps = true
+	defer func() { moreOps = false }()
+	return generate(rng, sync, maxLit, false)
+}
+
+var moreOps bool // set only while GenerateWide runs (generators are called from one goroutine)
+
 func generate(rng *rand.Rand, sync bool, maxLit uint64, share bool) *Program {
-	p := &Program{Rsize: []int{8, 16, 32}[rng.IntN(3)], Sync: sync, Macros: map[string][]Item{}, MaxLit: maxLit, ShareBias: share}
+	p := &Program{Rsize: []int{8, 16, 32}[rng.IntN(3)], Sync: sync, Macros: map[string][]Item{}, MaxLit: maxLit, ShareBias: share, MoreOps: moreOps}
 	if rng.IntN(4) == 0 {
 		p.GlobalIOMode = []string{"sync", "async"}[rng.IntN(2)]
 	}
@@ -494,7 +522,7 @@ func parseLit(s string) (uint64, error) {
 	case strings.HasPrefix(s, "0d"), strings.HasPrefix(s, "0u"):
 		return strconv.ParseUint(s[2:], 10, 64)
 	}
-	return strconv.ParseUint(s, 10, 64)
+	return strconv.ParseUint(s, 10, 64) // base 10 also for "017"
 }
 
 // Interpret runs the program on the given external input streams and returns the
@@ -587,9 +615,9 @@ func (p *Program) Interpret(in [][]uint64, want, maxSteps int, ignoreEntry bool)
 				*reg(s, a[0]) = (*reg(s, a[0]) + 1) & mask
 			case "dec":
 				*reg(s, a[0]) = (*reg(s, a[0]) - 1) & mask
-			case "add":
+			case "add", "addp":
 				*reg(s, a[0]) = (*reg(s, a[0]) + *reg(s, a[1])) & mask
-			case "mult":
+			case "mult", "multp":
 				*reg(s, a[0]) = (*reg(s, a[0]) * *reg(s, a[1])) & mask
 			case "clr":
 				*reg(s, a[0]) = 0
